@@ -1,5 +1,5 @@
 (* C10 — lemmas about Model/Streams.v. *)
-From Coq Require Import List NArith Bool Lia.
+From Coq Require Import List NArith Arith Bool Lia.
 Import ListNotations.
 From V Require Import Model.Streams.
 Local Open Scope N_scope.
@@ -962,70 +962,915 @@ Qed.
 Lemma exceeded_succ : forall strict limit, exceeded strict limit (limit + 1) = true.
 Proof. intros. unfold exceeded. destruct strict; [apply N.ltb_lt | apply N.leb_le]; lia. Qed.
 
-(* ---------------------------------------------------------------- client histories are server histories *)
-(* every effect a client operation has on the daemon is the run of the server events [cstep] reports, so the
-   server-side lemmas above apply to whatever real client operations (next, close, release, reconnect, ...) do *)
-Lemma srv_with_proxy : forall cs p x, srv (with_proxy cs p x) = srv cs. Proof. auto. Qed.
-Lemma srv_with_iter : forall cs h x, srv (with_iter cs h x) = srv cs. Proof. auto. Qed.
-Lemma srv_fresh : forall cs, srv (fst (fresh_conn cs)) = srv cs. Proof. auto. Qed.
-Lemma srv_step_eq : forall cfg cs ev, srv_step cfg cs ev = (with_srv cs (fst (step cfg (srv cs) ev)), snd (step cfg (srv cs) ev)).
-Proof. intros. unfold srv_step. destruct (step cfg (srv cs) ev); auto. Qed.
-Lemma srv_ensure : forall cs p px, srv (fst (fst (ensure_conn cs p px))) = srv cs.
-Proof. intros. unfold ensure_conn. destruct (p_conn px); auto. Qed.
-Lemma release_eq : forall cfg cs p px,
-  srv (fst (release cfg cs p px)) = fst (run cfg (srv cs) (snd (release cfg cs p px))).
-Proof. intros. unfold release. destruct (p_conn px); [|reflexivity]. rewrite srv_step_eq. cbn [fst snd].
-  rewrite run_cons. reflexivity. Qed.
+Lemma step_open_resp : forall cfg st c items,
+  snd (step cfg st (Open c items)) = if streaming cfg then ROpened (next_id st) else RNoStreaming.
+Proof. intros. simpl. destruct (streaming cfg); reflexivity. Qed.
 
+Lemma step_resp_kind : forall cfg st ev,
+  match ev, snd (step cfg st ev) with
+  | Open _ _, (ROpened _ | RNoStreaming) => True
+  | Next _ _, (RItem _ | RStop | RRaised _ | RError) => True
+  | (CloseStream _ _ | Disconnect _ | Housekeep | Tick _), RNone => True
+  | _, _ => False
+  end.
+Proof.
+  intros. destruct ev; simpl; auto.
+  - destruct (streaming cfg); simpl; auto.
+  - destruct (lookup id (tbl st)); simpl; auto. destruct (rest (reown c s)) as [|[v|e] r]; simpl; auto.
+  - destruct (0 <? linger cfg); simpl; auto.
+Qed.
+
+(* ---------------------------------------------------------------- client layer *)
 Local Opaque step.
-Ltac fin := simpl; repeat match goal with H : step _ _ _ = _ |- _ => rewrite H; simpl end; try reflexivity.
-Lemma cstep_refines : forall cfg cs op,
-  srv (fst (fst (cstep cfg cs op))) = fst (run cfg (srv cs) (snd (cstep cfg cs op))).
+
+Definition c_state (R : cstate * ctrace * trace) : cstate := fst (fst R).
+Definition c_trace (R : cstate * ctrace * trace) : ctrace := snd (fst R).
+Definition s_trace (R : cstate * ctrace * trace) : trace := snd R.
+
+Lemma run_one : forall cfg st ev, run cfg st [ev] = (fst (step cfg st ev), [(ev, snd (step cfg st ev))]).
+Proof. intros. rewrite run_cons. reflexivity. Qed.
+
+Lemma release_refines : forall cfg cs p px,
+  run cfg (srv cs) (map fst (snd (release cfg cs p px))) = (srv (fst (release cfg cs p px)), snd (release cfg cs p px)).
+Proof.
+  intros. unfold release. destruct (p_conn px); [|reflexivity]. cbn [srv_step fst snd map with_proxy with_srv srv].
+  apply run_one.
+Qed.
+
+Lemma srv_ensure : forall cs p px, srv (fst (fst (ensure_conn cs p px))) = srv cs.
+Proof. intros. unfold ensure_conn. destruct (p_conn px); reflexivity. Qed.
+
+(* every effect a client operation has on the daemon is the run of the server events [cstep] reports *)
+Lemma cstep_refines : forall pol cfg cs op,
+  run cfg (srv cs) (map fst (snd (cstep pol cfg cs op))) = (srv (fst (fst (cstep pol cfg cs op))), snd (cstep pol cfg cs op)).
 Proof.
   intros. destruct op; unfold cstep.
   - destruct (nthN (proxies cs) p) as [px|]; [|reflexivity].
     pose proof (srv_ensure cs p px) as E. destruct (ensure_conn cs p px) as [[cs1 px1] c]. simpl in E.
-    rewrite srv_step_eq. simpl. rewrite E.
-    destruct (step cfg (srv cs) (Open c items)) as [s r] eqn:S. simpl.
-    destruct r; fin;
+    cbn [srv_step with_srv with_proxy srv]. rewrite E.
+    destruct (snd (step cfg (srv cs) (Open c items))) eqn:R;
+      try (match goal with |- context [release ?a ?b ?c ?d] =>
+             pose proof (release_refines a b c d) as RR; destruct (release a b c d) as [cs4 tr] end;
+           cbn [fst snd srv map with_srv with_proxy] in RR |- *; rewrite run_cons; rewrite RR; rewrite R; reflexivity).
+    cbn [fst snd srv map]. rewrite run_one. rewrite R. reflexivity.
+  - destruct (iter_ready cs h); try reflexivity. cbn [srv_step with_srv with_proxy with_iter srv fst snd map]. apply run_one.
+  - destruct (iter_ready cs h); try reflexivity. destruct f.
+    + match goal with |- context [release ?a ?b ?c ?d] =>
+        pose proof (release_refines a b c d) as RR; destruct (release a b c d) as [cs4 tr] end.
+      cbn [fst snd srv map with_iter with_proxy] in RR |- *. exact RR.
+    + cbn [srv_step with_srv with_proxy srv].
       match goal with |- context [release ?a ?b ?c ?d] =>
-        pose proof (release_eq a b c d) as R; destruct (release a b c d) as [cs4 evs] end;
-      cbn [fst snd srv with_srv] in R |- *; rewrite run_cons; rewrite S; cbn [fst snd]; exact R.
+        pose proof (release_refines a b c d) as RR; destruct (release a b c d) as [cs4 tr] end.
+      cbn [fst snd srv map with_iter with_proxy with_srv] in RR |- *. rewrite run_cons. rewrite RR. reflexivity.
   - destruct (nthN (iters cs) h) as [it|]; [|reflexivity].
-    destruct (ci_proxy it) as [p|]; [|reflexivity].
-    destruct (nthN (proxies cs) p) as [px|]; [|reflexivity].
-    destruct (p_conn px) as [c|]; [|reflexivity].
-    rewrite srv_step_eq. simpl. destruct (step cfg (srv cs) (Next c (ci_sid it))) eqn:S; fin.
-  - destruct (nthN (iters cs) h) as [it|]; [|reflexivity].
-    destruct (ci_proxy it) as [p|]; [|reflexivity].
-    destruct (nthN (proxies cs) p) as [px|]; [|reflexivity].
-    destruct (p_conn px) as [c|]; [|reflexivity].
+    destruct (iter_ready cs h); try reflexivity.
     destruct (ci_seq it =? p_seq px).
-    + rewrite srv_step_eq. simpl. destruct (step cfg (srv cs) (CloseStream c (ci_sid it))) eqn:S; fin.
-    + simpl. rewrite !srv_step_eq. simpl.
-      destruct (step cfg (srv cs) (CloseStream (next_conn cs) (ci_sid it))) as [s1 r1] eqn:S1. simpl.
-      destruct (step cfg s1 (Disconnect (next_conn cs))) eqn:S2; fin.
+    + cbn [srv_step with_srv with_proxy with_iter srv fst snd map]. apply run_one.
+    + cbn [fresh_conn srv_step with_srv with_proxy with_iter srv fst snd map].
+      rewrite run_cons. rewrite run_one. reflexivity.
   - destruct (nthN (proxies cs) p) as [px|]; [|reflexivity].
-    pose proof (release_eq cfg cs p px). destruct (release cfg cs p px). auto.
+    pose proof (release_refines cfg cs p px) as RR. destruct (release cfg cs p px). exact RR.
   - destruct (nthN (proxies cs) p) as [px|]; [|reflexivity].
-    pose proof (release_eq cfg cs p px) as R. destruct (release cfg cs p px) as [cs1 evs]. simpl in R.
+    pose proof (release_refines cfg cs p px) as RR. destruct (release cfg cs p px) as [cs1 tr]. cbn [fst snd] in RR.
     pose proof (srv_ensure cs1 p {| p_conn := None; p_seq := p_seq px |}) as E.
-    destruct (ensure_conn cs1 p {| p_conn := None; p_seq := p_seq px |}) as [[cs2 ?] ?]. simpl in *. congruence.
+    destruct (ensure_conn cs1 p {| p_conn := None; p_seq := p_seq px |}) as [[cs2 ?] ?]. cbn [fst snd] in *.
+    rewrite E. exact RR.
   - destruct (nthN (proxies cs) p) as [px|]; [|reflexivity].
     pose proof (srv_ensure cs p px) as E. destruct (ensure_conn cs p px) as [[cs1 px1] c]. simpl in E.
-    rewrite srv_step_eq. simpl. rewrite E. destruct (step cfg (srv cs) (Next c id)) eqn:S; fin.
+    cbn [srv_step with_srv with_proxy srv fst snd map]. rewrite E. apply run_one.
   - destruct (nthN (proxies cs) p) as [px|]; [|reflexivity].
     pose proof (srv_ensure cs p px) as E. destruct (ensure_conn cs p px) as [[cs1 px1] c]. simpl in E.
-    rewrite srv_step_eq. simpl. rewrite E. destruct (step cfg (srv cs) (CloseStream c id)) eqn:S; fin.
-  - rewrite srv_step_eq. destruct (step cfg (srv cs) Housekeep) eqn:S; fin.
-  - rewrite srv_step_eq. destruct (step cfg (srv cs) (Tick dt)) eqn:S; fin.
+    cbn [srv_step with_srv with_proxy srv fst snd map]. rewrite E. apply run_one.
+  - cbn [srv_step with_srv srv fst snd map]. apply run_one.
+  - cbn [srv_step with_srv srv fst snd map]. apply run_one.
 Qed.
 
-Lemma crun_refines : forall cfg ops cs,
-  srv (fst (fst (crun cfg cs ops))) = fst (run cfg (srv cs) (snd (crun cfg cs ops))).
+Lemma crun_cons : forall pol cfg cs op ops,
+  crun pol cfg cs (op :: ops) =
+  let S := cstep pol cfg cs op in
+  let R := crun pol cfg (fst (fst S)) ops in
+  (c_state R, (op, snd (fst S)) :: c_trace R, snd S ++ s_trace R).
+Proof.
+  intros. simpl. destruct (cstep pol cfg cs op) as [[cs1 r] tr]. simpl.
+  destruct (crun pol cfg cs1 ops) as [[cs2 ctr] tr']. reflexivity.
+Qed.
+
+Lemma crun_app : forall pol cfg a cs b,
+  crun pol cfg cs (a ++ b) =
+  let R := crun pol cfg cs a in
+  let R' := crun pol cfg (c_state R) b in
+  (c_state R', c_trace R ++ c_trace R', s_trace R ++ s_trace R').
+Proof.
+  induction a as [|op a IH]; intros.
+  - simpl. unfold c_state, c_trace, s_trace. simpl. destruct (crun pol cfg cs b) as [[? ?] ?]. reflexivity.
+  - rewrite <- app_comm_cons. rewrite !crun_cons. cbv zeta. rewrite IH. cbv zeta.
+    unfold c_state, c_trace, s_trace. simpl. rewrite app_assoc. reflexivity.
+Qed.
+
+Lemma crun_snoc : forall pol cfg cs ops op,
+  crun pol cfg cs (ops ++ [op]) =
+  let R := crun pol cfg cs ops in
+  let S := cstep pol cfg (c_state R) op in
+  (fst (fst S), c_trace R ++ [(op, snd (fst S))], s_trace R ++ snd S).
+Proof.
+  intros. rewrite crun_app. cbv zeta. rewrite crun_cons. cbv zeta.
+  unfold c_state, c_trace, s_trace. simpl. rewrite app_nil_r. reflexivity.
+Qed.
+
+Lemma crun_refines : forall pol cfg ops cs,
+  run cfg (srv cs) (map fst (s_trace (crun pol cfg cs ops))) =
+  (srv (c_state (crun pol cfg cs ops)), s_trace (crun pol cfg cs ops)).
 Proof.
   induction ops as [|op ops IH]; intros; [reflexivity|].
-  simpl. pose proof (cstep_refines cfg cs op) as S. destruct (cstep cfg cs op) as [[cs1 r] evs]. simpl in S.
-  specialize (IH cs1). destruct (crun cfg cs1 ops) as [[cs2 tr] evs']. simpl in *.
-  rewrite run_app. simpl. rewrite <- S. auto.
+  rewrite crun_cons. cbv zeta. unfold s_trace at 1 3, c_state at 1. cbn [fst snd].
+  rewrite map_app. rewrite run_app. rewrite cstep_refines. cbn [fst snd]. rewrite IH. reflexivity.
 Qed.
+
+(* ---------------------------------------------------------------- lists with positions *)
+Lemma nth_set_nth_same : forall A (l : list A) n x, (n < length l)%nat -> nth_error (set_nth n x l) n = Some x.
+Proof.
+  induction l as [|y l IH]; intros n x H; [simpl in H; lia|].
+  destruct n; simpl; auto. apply IH. simpl in H. lia.
+Qed.
+Lemma nth_set_nth_other : forall A (l : list A) n m x, n <> m -> nth_error (set_nth n x l) m = nth_error l m.
+Proof.
+  induction l as [|y l IH]; intros n m x H; [destruct n; reflexivity|].
+  destruct n, m; simpl; auto; try contradiction. 
+Qed.
+Lemma map_set_nth : forall A B (f : A -> B) (l : list A) n x y,
+  nth_error l n = Some y -> f x = f y -> map f (set_nth n x l) = map f l.
+Proof.
+  induction l as [|z l IH]; intros n x y H E; [destruct n; reflexivity|].
+  destruct n; simpl in *.
+  - inversion H; subst. rewrite E. reflexivity.
+  - f_equal. eapply IH; eauto.
+Qed.
+Lemma length_set_nth : forall A (l : list A) n x, length (set_nth n x l) = length l.
+Proof. induction l as [|y l IH]; intros; destruct n; simpl; auto. Qed.
+
+Lemma nthN_setN_same : forall A (l : list A) h x y, nthN l h = Some y -> nthN (setN l h x) h = Some x.
+Proof.
+  unfold nthN, setN. intros. apply nth_set_nth_same. apply nth_error_Some. congruence.
+Qed.
+Lemma nthN_setN_other : forall A (l : list A) h k x, h <> k -> nthN (setN l h x) k = nthN l k.
+Proof.
+  unfold nthN, setN. intros. apply nth_set_nth_other. intro E. apply H. apply N2Nat.inj. auto.
+Qed.
+Lemma nthN_app_old : forall A (l : list A) x h y, nthN l h = Some y -> nthN (l ++ [x]) h = Some y.
+Proof. unfold nthN. intros. rewrite nth_error_app1; auto. apply nth_error_Some. congruence. Qed.
+
+Lemma iter_ready_Ready : forall cs h it p px c, iter_ready cs h = Ready it p px c ->
+  nthN (iters cs) h = Some it /\ ci_proxy it = Some p /\ nthN (proxies cs) p = Some px /\ p_conn px = Some c.
+Proof.
+  unfold iter_ready. intros cs h it p px c H.
+  destruct (nthN (iters cs) h) as [it0|]; [|discriminate].
+  destruct (ci_proxy it0) as [p0|] eqn:P; [|discriminate].
+  destruct (nthN (proxies cs) p0) as [px0|] eqn:X; [|discriminate].
+  destruct (p_conn px0) eqn:C; [|discriminate]. inversion H; subst. auto.
+Qed.
+Lemma iter_ready_Dropped : forall cs h, iter_ready cs h = Dropped ->
+  exists it, nthN (iters cs) h = Some it /\ ci_proxy it = None.
+Proof.
+  unfold iter_ready. intros cs h H.
+  destruct (nthN (iters cs) h) as [it0|]; [|discriminate].
+  destruct (ci_proxy it0) as [p0|] eqn:P; [|eauto].
+  destruct (nthN (proxies cs) p0) as [px0|]; [|discriminate]. destruct (p_conn px0); discriminate.
+Qed.
+Lemma iter_ready_dropped_iff : forall cs h it, nthN (iters cs) h = Some it -> ci_proxy it = None -> iter_ready cs h = Dropped.
+Proof. unfold iter_ready. intros. rewrite H, H0. reflexivity. Qed.
+
+(* ---------------------------------------------------------------- what a client step does to the iterator objects *)
+(* why an iterator object dropped its proxy reference in this step *)
+Definition dropcause (pol : cpolicy) (op : cop) (r : cresp) (h : N) : Prop :=
+  (op = CNext h /\ exists r0, r = next_resp r0 /\ drops pol r0 = true) \/
+  (exists f, op = CNextFault h f /\ drop_comm pol = true) \/
+  op = CClose h.
+
+Definition iters_step_full (pol : cpolicy) (op : cop) (l l' : list citer) (r : cresp) : Prop :=
+  (l' = l /\ forall id, r <> COpened id) \/
+  (exists h it it1, nthN l h = Some it /\ l' = setN l h it1 /\ ci_sid it1 = ci_sid it /\
+                    (ci_proxy it = None -> ci_proxy it1 = None) /\ (forall id, r <> COpened id) /\
+                    (ci_proxy it1 = None -> ci_proxy it = None \/ dropcause pol op r h)) \/
+  (exists new id, r = COpened id /\ ci_sid new = id /\ l' = l ++ [new] /\ ci_proxy new <> None).
+
+Definition iters_step (l l' : list citer) (r : cresp) : Prop :=
+  (l' = l /\ forall id, r <> COpened id) \/
+  (exists h it it1, nthN l h = Some it /\ l' = setN l h it1 /\ ci_sid it1 = ci_sid it /\
+                    (ci_proxy it = None -> ci_proxy it1 = None) /\ forall id, r <> COpened id) \/
+  (exists new id, r = COpened id /\ ci_sid new = id /\ l' = l ++ [new]).
+
+Lemma iters_step_weaken : forall pol op l l' r, iters_step_full pol op l l' r -> iters_step l l' r.
+Proof.
+  unfold iters_step_full, iters_step. intros pol op l l' r [H|[[h [it [it1 [A [B [C [D [E _]]]]]]]]|[new [id [A [B [C _]]]]]]].
+  - left; auto.
+  - right; left. exists h, it, it1. auto.
+  - right; right. exists new, id. auto.
+Qed.
+
+Lemma iters_release : forall cfg cs p px, iters (fst (release cfg cs p px)) = iters cs.
+Proof. intros. unfold release. destruct (p_conn px); reflexivity. Qed.
+Lemma iters_ensure : forall cs p px, iters (fst (fst (ensure_conn cs p px))) = iters cs.
+Proof. intros. unfold ensure_conn. destruct (p_conn px); reflexivity. Qed.
+
+Lemma next_id_release : forall cfg cs p px, next_id (srv cs) <= next_id (srv (fst (release cfg cs p px))).
+Proof.
+  intros. unfold release. destruct (p_conn px); [|simpl; lia]. cbn [srv_step fst with_proxy with_srv srv].
+  apply step_next_id_le.
+Qed.
+
+Lemma cstep_iters_full : forall pol cfg cs op,
+  iters_step_full pol op (iters cs) (iters (fst (fst (cstep pol cfg cs op)))) (snd (fst (cstep pol cfg cs op))).
+Proof.
+  intros. unfold iters_step_full, dropcause. destruct op; unfold cstep.
+  - destruct (nthN (proxies cs) p) as [px|]; [|left; split; [reflexivity|discriminate]].
+    pose proof (iters_ensure cs p px) as E. destruct (ensure_conn cs p px) as [[cs1 px1] c]. simpl in E.
+    cbn [srv_step with_srv with_proxy srv].
+    destruct (snd (step cfg (srv cs1) (Open c items))) eqn:R;
+      try (match goal with |- context [release ?a ?b ?c ?d] =>
+             pose proof (iters_release a b c d) as RR; destruct (release a b c d) as [cs4 tr] end;
+           cbn [fst snd iters] in RR |- *; left; split; [rewrite RR; exact E | discriminate]).
+    right. right. exists {| ci_proxy := Some p; ci_sid := id; ci_seq := p_seq (bump px1) |}, id.
+    cbn [fst snd iters with_srv with_proxy]. rewrite E. split; [reflexivity|]. split; [reflexivity|]. split; [reflexivity|discriminate].
+  - destruct (iter_ready cs h) eqn:IR; try (left; split; [reflexivity|discriminate]).
+    apply iter_ready_Ready in IR. destruct IR as [A [B _]].
+    right. left. eexists h, it, _. cbn [srv_step with_srv with_proxy with_iter srv fst snd iters].
+    split; [exact A|]. split; [reflexivity|]. split; [reflexivity|]. split; [rewrite B; discriminate|].
+    split; [intros id; destruct (snd (step cfg (srv cs) (Next c (ci_sid it)))); discriminate|].
+    cbn [ci_proxy]. intros D. right. left. split; [reflexivity|]. eexists. split; [reflexivity|].
+    destruct (drops pol (snd (step cfg (srv cs) (Next c (ci_sid it))))); [reflexivity|]. rewrite B in D. discriminate.
+  - destruct (iter_ready cs h) eqn:IR; try (left; split; [reflexivity|discriminate]).
+    apply iter_ready_Ready in IR. destruct IR as [A [B _]].
+    right. left. destruct f.
+    + match goal with |- context [release ?a ?b ?c ?d] =>
+        pose proof (iters_release a b c d) as RR; destruct (release a b c d) as [cs4 tr] end.
+      cbn [fst snd iters with_iter with_proxy] in RR |- *. rewrite RR.
+      eexists h, it, _. split; [exact A|]. split; [reflexivity|]. split; [reflexivity|].
+      split; [rewrite B; discriminate|]. split; [discriminate|].
+      cbn [ci_proxy]. intros D. right. right. left. eexists. split; [reflexivity|].
+      destruct (drop_comm pol); [reflexivity|]. rewrite B in D. discriminate.
+    + cbn [srv_step].
+      match goal with |- context [release ?a ?b ?c ?d] =>
+        pose proof (iters_release a b c d) as RR; destruct (release a b c d) as [cs4 tr] end.
+      cbn [fst snd iters with_iter with_proxy with_srv] in RR |- *. rewrite RR.
+      eexists h, it, _. split; [exact A|]. split; [reflexivity|]. split; [reflexivity|].
+      split; [rewrite B; discriminate|]. split; [discriminate|].
+      cbn [ci_proxy]. intros D. right. right. left. eexists. split; [reflexivity|].
+      destruct (drop_comm pol); [reflexivity|]. rewrite B in D. discriminate.
+  - destruct (nthN (iters cs) h) as [it|] eqn:A; [|left; split; [reflexivity|discriminate]].
+    destruct (iter_ready cs h) eqn:IR; try (left; split; [reflexivity|discriminate]).
+    + right. left. eexists h, it, _. cbn [with_iter fst snd iters].
+      split; [exact A|]. split; [reflexivity|]. split; [reflexivity|]. split; [reflexivity|]. split; [discriminate|].
+      intros _. right. right. right. reflexivity.
+    + right. left. destruct (ci_seq it =? p_seq px);
+        cbn [fresh_conn srv_step with_srv with_proxy with_iter fst snd iters];
+        eexists h, it, _; (split; [exact A|]); (split; [reflexivity|]); (split; [reflexivity|]); (split; [reflexivity|]);
+        (split; [discriminate|]); intros _; right; right; right; reflexivity.
+  - destruct (nthN (proxies cs) p) as [px|]; [|left; split; [reflexivity|discriminate]].
+    pose proof (iters_release cfg cs p px) as RR. destruct (release cfg cs p px). left. split; [exact RR|discriminate].
+  - destruct (nthN (proxies cs) p) as [px|]; [|left; split; [reflexivity|discriminate]].
+    pose proof (iters_release cfg cs p px) as RR. destruct (release cfg cs p px) as [cs1 tr]. cbn [fst] in RR.
+    pose proof (iters_ensure cs1 p {| p_conn := None; p_seq := p_seq px |}) as E.
+    destruct (ensure_conn cs1 p {| p_conn := None; p_seq := p_seq px |}) as [[cs2 ?] ?]. cbn [fst snd] in *.
+    left. split; [congruence|discriminate].
+  - destruct (nthN (proxies cs) p) as [px|]; [|left; split; [reflexivity|discriminate]].
+    pose proof (iters_ensure cs p px) as E. destruct (ensure_conn cs p px) as [[cs1 px1] c]. simpl in E.
+    cbn [srv_step with_srv with_proxy srv fst snd iters]. left. split; [exact E|].
+    intros id0. destruct (snd (step cfg (srv cs1) (Next c id))); discriminate.
+  - destruct (nthN (proxies cs) p) as [px|]; [|left; split; [reflexivity|discriminate]].
+    pose proof (iters_ensure cs p px) as E. destruct (ensure_conn cs p px) as [[cs1 px1] c]. simpl in E.
+    cbn [srv_step with_srv with_proxy fst snd iters]. left. split; [exact E|discriminate].
+  - left. split; [reflexivity|discriminate].
+  - left. split; [reflexivity|discriminate].
+Qed.
+
+Lemma cstep_iters : forall pol cfg cs op,
+  iters_step (iters cs) (iters (fst (fst (cstep pol cfg cs op)))) (snd (fst (cstep pol cfg cs op))).
+Proof. intros. eapply iters_step_weaken. apply cstep_iters_full. Qed.
+
+(* ---------------------------------------------------------------- client-state invariant *)
+Record cinv (cs : cstate) : Prop := {
+  ci_srv : inv (srv cs);
+  ci_lt : Forall (fun id => id < next_id (srv cs)) (map ci_sid (iters cs));
+  ci_nodup : NoDup (map ci_sid (iters cs)) }.
+
+Lemma cinv_init : forall t0 n, cinv (cinit t0 n).
+Proof. intros. split; simpl; [apply inv_init | constructor | constructor]. Qed.
+
+Lemma cstep_srv : forall pol cfg cs op,
+  srv (fst (fst (cstep pol cfg cs op))) = fst (run cfg (srv cs) (map fst (snd (cstep pol cfg cs op)))).
+Proof. intros. rewrite cstep_refines. reflexivity. Qed.
+
+(* a stream handed to the client: the operation was an Open, the id is the next free one *)
+Lemma cstep_opened : forall pol cfg cs op id, snd (fst (cstep pol cfg cs op)) = COpened id ->
+  exists p items c, op = COpen p items /\ snd (cstep pol cfg cs op) = [(Open c items, ROpened id)] /\ id = next_id (srv cs).
+Proof.
+  intros pol cfg cs op id H. destruct op; unfold cstep in *.
+  - destruct (nthN (proxies cs) p) as [px|]; [|discriminate].
+    pose proof (srv_ensure cs p px) as E. destruct (ensure_conn cs p px) as [[cs1 px1] c]. simpl in E.
+    cbn [srv_step with_srv with_proxy srv] in *. rewrite E in *.
+    pose proof (step_open_resp cfg (srv cs) c items) as O.
+    destruct (snd (step cfg (srv cs) (Open c items))) eqn:R;
+      try (exfalso; match goal with H : context [release ?a ?b ?c ?d] |- _ => destruct (release a b c d) end; discriminate).
+    cbn [fst snd] in *. inversion H; subst id0. exists p, items, c. split; [reflexivity|]. split; [reflexivity|].
+    destruct (streaming cfg); [inversion O; reflexivity | discriminate].
+  - destruct (iter_ready cs h); try discriminate. cbn [srv_step fst snd] in H.
+    destruct (snd (step cfg (srv (with_proxy cs p (bump px))) (Next c (ci_sid it)))); discriminate.
+  - destruct (iter_ready cs h); try discriminate. destruct f.
+    + destruct (release cfg (with_proxy cs p (bump px)) p (bump px)); discriminate.
+    + cbn [srv_step] in H.
+      match goal with H : context [release ?a ?b ?c ?d] |- _ => destruct (release a b c d) end; discriminate.
+  - destruct (nthN (iters cs) h); [|discriminate]. destruct (iter_ready cs h); try discriminate.
+    destruct (ci_seq c =? p_seq px); discriminate.
+  - destruct (nthN (proxies cs) p); [|discriminate]. destruct (release cfg cs p p0); discriminate.
+  - destruct (nthN (proxies cs) p); [|discriminate]. destruct (release cfg cs p p0).
+    destruct (ensure_conn c p {| p_conn := None; p_seq := p_seq p0 |}) as [[? ?] ?]. discriminate.
+  - destruct (nthN (proxies cs) p); [|discriminate]. destruct (ensure_conn cs p p0) as [[? ?] ?].
+    cbn [srv_step fst snd] in H.
+    match goal with H : next_resp ?r = _ |- _ => destruct r; discriminate end.
+  - destruct (nthN (proxies cs) p); [|discriminate]. destruct (ensure_conn cs p p0) as [[? ?] ?]. discriminate.
+  - discriminate.
+  - discriminate.
+Qed.
+
+Lemma cstep_cinv : forall pol cfg cs op, cinv cs -> cinv (fst (fst (cstep pol cfg cs op))).
+Proof.
+  intros pol cfg cs op [I LT ND].
+  assert (LE : next_id (srv cs) <= next_id (srv (fst (fst (cstep pol cfg cs op))))).
+  { rewrite cstep_srv. apply run_next_id_le. }
+  split.
+  - rewrite cstep_srv. apply run_inv. auto.
+  - destruct (cstep_iters pol cfg cs op) as [[E _]|[[h [it [it1 [A [E [S _]]]]]]|[new [id [R [S E]]]]]].
+    + rewrite E. eapply Forall_impl; [|exact LT]. simpl. intros; lia.
+    + rewrite E. unfold setN. erewrite map_set_nth; [|exact A|exact S].
+      eapply Forall_impl; [|exact LT]. simpl. intros; lia.
+    + rewrite E. rewrite map_app. apply Forall_app. split.
+      * eapply Forall_impl; [|exact LT]. simpl. intros; lia.
+      * constructor; [|constructor]. simpl. rewrite S.
+        destruct (cstep_opened _ _ _ _ _ R) as [p [items [c [_ [F IDN]]]]].
+        rewrite cstep_srv. rewrite F. cbn [map fst]. rewrite run_one. cbn [fst]. rewrite step_next_id. lia.
+  - destruct (cstep_iters pol cfg cs op) as [[E _]|[[h [it [it1 [A [E [S _]]]]]]|[new [id [R [S E]]]]]].
+    + rewrite E. auto.
+    + rewrite E. unfold setN. erewrite map_set_nth; [|exact A|exact S]. auto.
+    + rewrite E. rewrite map_app. simpl. apply NoDup_app_one; auto.
+      destruct (cstep_opened _ _ _ _ _ R) as [p [items [c [_ [_ IDN]]]]].
+      intro IN. rewrite Forall_forall in LT. specialize (LT _ IN). rewrite S in LT. lia.
+Qed.
+
+Lemma crun_cinv : forall pol cfg ops cs, cinv cs -> cinv (c_state (crun pol cfg cs ops)).
+Proof.
+  induction ops as [|op ops IH]; intros; [exact H|].
+  rewrite crun_cons. cbv zeta. unfold c_state at 1. cbn [fst]. apply IH. apply cstep_cinv. auto.
+Qed.
+
+(* ---------------------------------------------------------------- what the daemon hands out, seen from one client stream *)
+Lemma delivered_release : forall cfg cs p px id, delivered (snd (release cfg cs p px)) id = [].
+Proof. intros. unfold release. destruct (p_conn px); reflexivity. Qed.
+
+Lemma nodup_map_nth : forall A B (f : A -> B) (l : list A) i j a b,
+  NoDup (map f l) -> nth_error l i = Some a -> nth_error l j = Some b -> f a = f b -> i = j.
+Proof.
+  induction l as [|x l IH]; intros i j a b ND Hi Hj E; [destruct i; discriminate|].
+  simpl in ND. inversion ND; subst.
+  destruct i, j; simpl in *; auto.
+  - inversion Hi; subst. exfalso. apply H1. rewrite E. apply in_map. eapply nth_error_In; eauto.
+  - inversion Hj; subst. exfalso. apply H1. rewrite <- E. apply in_map. eapply nth_error_In; eauto.
+  - f_equal. eapply IH; eauto.
+Qed.
+
+Lemma sid_eqb_handles : forall cs h k it it', cinv cs -> nthN (iters cs) h = Some it -> nthN (iters cs) k = Some it' ->
+  (ci_sid it' =? ci_sid it) = (k =? h).
+Proof.
+  intros cs h k it it' [_ _ ND] A B. destruct (N.eqb_spec k h).
+  - subst. rewrite A in B. inversion B; subst. apply N.eqb_refl.
+  - apply N.eqb_neq. intro E. apply n. unfold nthN in *. apply N2Nat.inj.
+    eapply (nodup_map_nth _ _ ci_sid); eauto.
+Qed.
+
+Lemma cstep_delivered : forall pol cfg cs op h it, cinv cs -> is_raw op = false -> nthN (iters cs) h = Some it ->
+  delivered (snd (cstep pol cfg cs op)) (ci_sid it) = entry_taken h (op, snd (fst (cstep pol cfg cs op))).
+Proof.
+  intros pol cfg cs op h it CI RAW A. destruct op; try discriminate; unfold cstep.
+  - destruct (nthN (proxies cs) p) as [px|]; [|reflexivity].
+    destruct (ensure_conn cs p px) as [[cs1 px1] c]. cbn [srv_step].
+    destruct (snd (step cfg (srv (with_proxy cs1 p (bump px1))) (Open c items))) eqn:R;
+      try (match goal with |- context [release ?a ?b ?c ?d] =>
+             pose proof (delivered_release a b c d (ci_sid it)) as RR; destruct (release a b c d) as [cs4 tr] end;
+           cbn [fst snd] in RR |- *; cbn [delivered]; rewrite RR; reflexivity).
+    reflexivity.
+  - destruct (iter_ready cs h0) eqn:IR; try reflexivity.
+    apply iter_ready_Ready in IR. destruct IR as [B _].
+    cbn [srv_step fst snd]. pose proof (sid_eqb_handles cs h h0 it it0 CI A B) as SE.
+    destruct (snd (step cfg (srv (with_proxy cs p (bump px))) (Next c (ci_sid it0)))); simpl; try reflexivity.
+    rewrite SE. destruct (h0 =? h); reflexivity.
+  - destruct (iter_ready cs h0) eqn:IR; try reflexivity.
+    apply iter_ready_Ready in IR. destruct IR as [B _]. destruct f.
+    + match goal with |- context [release ?a ?b ?c ?d] =>
+        pose proof (delivered_release a b c d (ci_sid it)) as RR; destruct (release a b c d) as [cs4 tr] end.
+      cbn [fst snd] in RR |- *. exact RR.
+    + cbn [srv_step].
+      match goal with |- context [release ?a ?b ?c ?d] =>
+        pose proof (delivered_release a b c d (ci_sid it)) as RR; destruct (release a b c d) as [cs4 tr] end.
+      cbn [fst snd] in RR |- *. pose proof (sid_eqb_handles cs h h0 it it0 CI A B) as SE.
+      destruct (snd (step cfg (srv (with_proxy cs p (bump px))) (Next c (ci_sid it0)))); simpl; try exact RR.
+      rewrite SE. destruct (h0 =? h); simpl; rewrite RR; reflexivity.
+  - destruct (nthN (iters cs) h0) as [it0|]; [|reflexivity].
+    destruct (iter_ready cs h0); try reflexivity. destruct (ci_seq it0 =? p_seq px); reflexivity.
+  - destruct (nthN (proxies cs) p) as [px|]; [|reflexivity].
+    pose proof (delivered_release cfg cs p px (ci_sid it)) as RR. destruct (release cfg cs p px). exact RR.
+  - destruct (nthN (proxies cs) p) as [px|]; [|reflexivity].
+    pose proof (delivered_release cfg cs p px (ci_sid it)) as RR. destruct (release cfg cs p px) as [cs1 tr].
+    destruct (ensure_conn cs1 p {| p_conn := None; p_seq := p_seq px |}) as [[? ?] ?]. exact RR.
+  - reflexivity.
+  - reflexivity.
+Qed.
+
+(* an operation naming a handle that does not exist (yet) gets nothing *)
+Lemma cstep_no_iter : forall pol cfg cs op h, nthN (iters cs) h = None ->
+  entry_taken h (op, snd (fst (cstep pol cfg cs op))) = [].
+Proof.
+  intros pol cfg cs op h A. destruct op; try reflexivity; unfold cstep.
+  - destruct (N.eqb_spec h0 h).
+    + subst. unfold iter_ready. rewrite A. reflexivity.
+    + apply N.eqb_neq in n.
+      match goal with |- entry_taken _ (_, ?r) = _ => destruct r end; try reflexivity. simpl. rewrite n. reflexivity.
+  - destruct (N.eqb_spec h0 h).
+    + subst. unfold iter_ready. rewrite A. reflexivity.
+    + apply N.eqb_neq in n.
+      match goal with |- entry_taken _ (_, ?r) = _ => destruct r as [| | | | | | |lost|] end; try reflexivity.
+      destruct lost as [[]|]; try reflexivity. simpl. rewrite n. reflexivity.
+Qed.
+
+(* ---------------------------------------------------------------- the client-history invariant *)
+Definition no_raw (ops : list cop) : bool := forallb (fun op => negb (is_raw op)) ops.
+
+Record chist (cfg : config) (t0 : N) (cs : cstate) (ctr : ctrace) (st : trace) : Prop := {
+  ch_cinv : cinv cs;
+  ch_run : run cfg (init t0) (map fst st) = (srv cs, st);
+  ch_len : length (iters cs) = length (copened ctr);
+  ch_old : forall h it, nthN (iters cs) h = Some it ->
+           taken ctr h = delivered st (ci_sid it) /\
+           exists items, source_from 0 (map fst st) (ci_sid it) = Some items /\
+                         nth_error (copened ctr) (N.to_nat h) = Some items;
+  ch_new : forall h, nthN (iters cs) h = None -> taken ctr h = [] }.
+
+Lemma taken_snoc : forall ctr e h, taken (ctr ++ [e]) h = taken ctr h ++ entry_taken h e.
+Proof. intros. unfold taken. rewrite flat_map_app. simpl. rewrite app_nil_r. reflexivity. Qed.
+Lemma copened_snoc : forall ctr e, copened (ctr ++ [e]) = copened ctr ++ entry_opened e.
+Proof. intros. unfold copened. rewrite flat_map_app. simpl. rewrite app_nil_r. reflexivity. Qed.
+Lemma entry_opened_nil : forall op r, (forall id, r <> COpened id) -> entry_opened (op, r) = [].
+Proof. intros. destruct op; try reflexivity. destruct r; try reflexivity. exfalso. eapply H; eauto. Qed.
+
+Lemma nthN_none_setN : forall A (l : list A) h k x, nthN (setN l h x) k = None -> nthN l k = None.
+Proof.
+  unfold nthN, setN. intros. apply nth_error_None. apply nth_error_None in H. rewrite length_set_nth in H. auto.
+Qed.
+Lemma nthN_app_cases : forall A (l : list A) x h y, nthN (l ++ [x]) h = Some y ->
+  nthN l h = Some y \/ (N.to_nat h = length l /\ y = x /\ nthN l h = None).
+Proof.
+  unfold nthN. intros A l x h y H. destruct (Nat.lt_ge_cases (N.to_nat h) (length l)).
+  - left. rewrite nth_error_app1 in H; auto.
+  - right. rewrite nth_error_app2 in H by auto.
+    destruct (N.to_nat h - length l)%nat eqn:E; simpl in H.
+    + inversion H. split; [lia|]. split; auto. apply nth_error_None. lia.
+    + destruct n; discriminate.
+Qed.
+
+Lemma chist_step : forall pol cfg t0 cs ctr st op, is_raw op = false -> chist cfg t0 cs ctr st ->
+  chist cfg t0 (fst (fst (cstep pol cfg cs op))) (ctr ++ [(op, snd (fst (cstep pol cfg cs op)))])
+        (st ++ snd (cstep pol cfg cs op)).
+Proof.
+  intros pol cfg t0 cs ctr st op RAW [CI RUN LEN OLD NEW].
+  pose proof (cstep_iters pol cfg cs op) as IS.
+  set (S := cstep pol cfg cs op) in *. set (cs' := fst (fst S)) in *. set (r := snd (fst S)) in *. set (frag := snd S) in *.
+  assert (RUN' : run cfg (init t0) (map fst (st ++ frag)) = (srv cs', st ++ frag)).
+  { rewrite map_app, run_app, RUN. cbn [fst snd]. unfold frag, cs', S. rewrite cstep_refines. reflexivity. }
+  assert (DEL : forall h it, nthN (iters cs) h = Some it ->
+            taken (ctr ++ [(op, r)]) h = delivered (st ++ frag) (ci_sid it)).
+  { intros h it A. rewrite taken_snoc, delivered_app. destruct (OLD _ _ A) as [T _]. rewrite T. f_equal.
+    symmetry. apply cstep_delivered; auto. }
+  assert (SRC : forall h it, nthN (iters cs) h = Some it ->
+            exists items, source_from 0 (map fst (st ++ frag)) (ci_sid it) = Some items /\
+                          nth_error (copened ctr ++ entry_opened (op, r)) (N.to_nat h) = Some items).
+  { intros h it A. destruct (OLD _ _ A) as [_ [items [S1 S2]]]. exists items. split.
+    - rewrite map_app, source_from_app, S1. reflexivity.
+    - rewrite nth_error_app1; auto. apply nth_error_Some. congruence. }
+  destruct IS as [[E NO]|[[h0 [it0 [it1 [A0 [E [SID [_ NO]]]]]]]|[new [id [R [SID E]]]]]].
+  - (* iterator objects unchanged *)
+    split; auto.
+    + apply cstep_cinv; auto.
+    + rewrite E, copened_snoc, entry_opened_nil by auto. rewrite app_nil_r. auto.
+    + rewrite E. intros h it A. split; [apply DEL; auto|]. rewrite copened_snoc. apply SRC; auto.
+    + rewrite E. intros h A. rewrite taken_snoc, (NEW _ A). apply cstep_no_iter; auto.
+  - (* one iterator object updated, same stream id *)
+    split; auto.
+    + apply cstep_cinv; auto.
+    + rewrite E, copened_snoc, entry_opened_nil by auto. rewrite app_nil_r. unfold setN. rewrite length_set_nth. auto.
+    + rewrite E. intros h it A. destruct (N.eq_dec h0 h) as [EQ|NE].
+      * subst h0. rewrite (nthN_setN_same _ _ _ _ _ A0) in A. inversion A; subst it. rewrite SID.
+        split; [apply DEL; auto|]. rewrite copened_snoc. apply SRC; auto.
+      * rewrite nthN_setN_other in A by auto. split; [apply DEL; auto|]. rewrite copened_snoc. apply SRC; auto.
+    + rewrite E. intros h A. apply nthN_none_setN in A. rewrite taken_snoc, (NEW _ A). apply cstep_no_iter; auto.
+  - (* a new stream was handed out *)
+    destruct (cstep_opened pol cfg cs op id R) as [p [items [c [OP [F IDN]]]]].
+    change (frag = [(Open c items, ROpened id)]) in F.
+    assert (NID : next_id (srv cs) = opens (map fst st)).
+    { pose proof (run_next_id cfg (map fst st) (init t0)) as X. rewrite RUN in X. simpl in X. lia. }
+    split; auto.
+    + apply cstep_cinv; auto.
+    + rewrite E, copened_snoc, app_length, app_length. rewrite R, OP. simpl. lia.
+    + rewrite E. intros h it A. apply nthN_app_cases in A. destruct A as [A|[HL [IT A]]].
+      * split; [apply DEL; auto|]. rewrite copened_snoc. apply SRC; auto.
+      * subst it. rewrite SID. split.
+        -- rewrite taken_snoc, (NEW _ A), delivered_app, F.
+           pose proof (hist_inv_run cfg t0 (map fst st)) as HI. rewrite RUN in HI. cbn [fst snd] in HI.
+           rewrite (h_fresh _ _ _ HI) by lia. rewrite R, OP. reflexivity.
+        -- exists items. split.
+           ++ rewrite map_app, source_from_app, F. rewrite (source_from_ge (map fst st) 0 id) by lia.
+              simpl. rewrite <- NID, <- IDN, N.eqb_refl. reflexivity.
+           ++ rewrite copened_snoc, R, OP. simpl. rewrite HL, LEN.
+              rewrite nth_error_app2 by lia. rewrite Nat.sub_diag. reflexivity.
+    + rewrite E. intros h A. assert (A' : nthN (iters cs) h = None).
+      { unfold nthN in *. apply nth_error_None. apply nth_error_None in A. rewrite app_length in A. simpl in A. lia. }
+      rewrite taken_snoc, (NEW _ A'). apply cstep_no_iter; auto.
+Qed.
+
+Lemma chist_run : forall pol cfg t0 n ops, no_raw ops = true ->
+  let R := crun pol cfg (cinit t0 n) ops in chist cfg t0 (c_state R) (c_trace R) (s_trace R).
+Proof.
+  intros pol cfg t0 n ops. induction ops as [|op ops IH] using rev_ind; intros NR.
+  - simpl. split; try reflexivity.
+    + apply cinv_init.
+    + intros h it A. unfold nthN in A. simpl in A. destruct (N.to_nat h); discriminate.
+  - unfold no_raw in NR. rewrite forallb_app in NR. apply andb_true_iff in NR. destruct NR as [NR NO].
+    simpl in NO. rewrite andb_true_r in NO. apply negb_true_iff in NO.
+    specialize (IH NR). cbv zeta in IH |- *. rewrite crun_snoc. cbv zeta.
+    unfold c_state at 1, c_trace at 1, s_trace at 1. cbn [fst snd]. apply chist_step; auto.
+Qed.
+
+(* ---------------------------------------------------------------- client streams: items *)
+Lemma handle_exists : forall cfg t0 cs ctr st h items, chist cfg t0 cs ctr st ->
+  nth_error (copened ctr) (N.to_nat h) = Some items -> exists it, nthN (iters cs) h = Some it.
+Proof.
+  intros cfg t0 cs ctr st h items H A. unfold nthN.
+  destruct (nth_error (iters cs) (N.to_nat h)) eqn:E; eauto.
+  apply nth_error_None in E. rewrite (ch_len _ _ _ _ _ H) in E.
+  assert (nth_error (copened ctr) (N.to_nat h) <> None) by congruence. apply nth_error_Some in H0. lia.
+Qed.
+
+Lemma client_items_exact : forall pol cfg t0 n ops h items, no_raw ops = true ->
+  let R := crun pol cfg (cinit t0 n) ops in
+  nth_error (copened (c_trace R)) (N.to_nat h) = Some items ->
+  exists suffix, items = yields (taken (c_trace R) h) ++ suffix.
+Proof.
+  intros pol cfg t0 n ops h items NR R A. pose proof (chist_run pol cfg t0 n ops NR) as H. fold R in H.
+  destruct (handle_exists _ _ _ _ _ _ _ H A) as [it IT].
+  destruct (ch_old _ _ _ _ _ H _ _ IT) as [T [items' [S1 S2]]]. rewrite A in S2. inversion S2; subst items'.
+  pose proof (hist_inv_run cfg t0 (map fst (s_trace R))) as HI. rewrite (ch_run _ _ _ _ _ H) in HI. cbn [fst snd] in HI.
+  rewrite T. eapply (h_prefix _ _ _ HI); eauto.
+Qed.
+
+(* items whose answer was lost in transit: the only difference between handed out and received *)
+Definition entry_lost (h : N) (e : cop * cresp) : bool :=
+  match e with (CNextFault k _, CCommErr (Some _)) => k =? h | _ => false end.
+Lemma received_taken : forall tr h, existsb (entry_lost h) tr = false -> received tr h = taken tr h.
+Proof.
+  induction tr as [|[op r] tr IH]; intros h H; [reflexivity|].
+  simpl in H. apply orb_false_iff in H. destruct H as [H1 H2].
+  unfold received, taken in *. simpl. rewrite IH by auto. f_equal.
+  destruct op; try reflexivity. destruct r; try reflexivity. destruct lost as [[]|]; try reflexivity.
+  simpl in H1. rewrite H1. reflexivity.
+Qed.
+
+Lemma crun_entries : forall pol cfg ops cs e, In e (c_trace (crun pol cfg cs ops)) ->
+  exists cs0, snd e = snd (fst (cstep pol cfg cs0 (fst e))) /\ In (fst e) ops.
+Proof.
+  induction ops as [|op ops IH]; intros cs e H; [destruct H|].
+  rewrite crun_cons in H. cbv zeta in H. unfold c_trace at 1 in H. cbn [fst snd] in H. destruct H as [H|H].
+  - subst e. exists cs. split; [reflexivity | left; reflexivity].
+  - destruct (IH _ _ H) as [cs0 [A B]]. exists cs0. split; auto. right; auto.
+Qed.
+
+Lemma reqlost_resp : forall pol cfg cs h r, snd (fst (cstep pol cfg cs (CNextFault h ReqLost))) <> CCommErr (Some r).
+Proof.
+  intros. unfold cstep. destruct (iter_ready cs h); try discriminate.
+  destruct (release cfg (with_proxy cs p (bump px)) p (bump px)). discriminate.
+Qed.
+
+Lemma no_reply_lost : forall pol cfg ops cs h, forallb (fun op => negb (reply_lost_on h op)) ops = true ->
+  existsb (entry_lost h) (c_trace (crun pol cfg cs ops)) = false.
+Proof.
+  intros pol cfg ops cs h H. destruct (existsb (entry_lost h) (c_trace (crun pol cfg cs ops))) eqn:E; auto.
+  apply existsb_exists in E. destruct E as [[op r] [IN L]]. destruct (crun_entries _ _ _ _ _ IN) as [cs0 [A B]].
+  simpl in A, B. rewrite forallb_forall in H. specialize (H _ B). unfold entry_lost in L.
+  destruct op; try discriminate. destruct r; try discriminate. destruct lost; try discriminate.
+  destruct f; [exfalso; eapply reqlost_resp; eauto|]. simpl in H. rewrite L in H. discriminate.
+Qed.
+
+(* ---------------------------------------------------------------- client streams: how next() answers *)
+Lemma next_ready_resp : forall pol cfg cs h it p px c, iter_ready cs h = Ready it p px c ->
+  snd (fst (cstep pol cfg cs (CNext h))) = next_resp (snd (step cfg (srv cs) (Next c (ci_sid it)))).
+Proof. intros. unfold cstep. rewrite H. reflexivity. Qed.
+
+Lemma client_next_answer : forall pol cfg t0 n ops h, no_raw ops = true ->
+  let R := crun pol cfg (cinit t0 n) ops in
+  match snd (fst (cstep pol cfg (c_state R) (CNext h))) with
+  | CItem v => exists items r, nth_error (copened (c_trace R)) (N.to_nat h) = Some items /\
+                               items = yields (taken (c_trace R) h) ++ Yield v :: r
+  | CStop => iter_ready (c_state R) h = Dropped \/
+             nth_error (copened (c_trace R)) (N.to_nat h) = Some (yields (taken (c_trace R) h))
+  | CRaised e => exists items r, nth_error (copened (c_trace R)) (N.to_nat h) = Some items /\
+                                 items = yields (taken (c_trace R) h) ++ Raise e :: r
+  | _ => True
+  end.
+Proof.
+  intros pol cfg t0 n ops h NR R. pose proof (chist_run pol cfg t0 n ops NR) as H. fold R in H.
+  destruct (iter_ready (c_state R) h) eqn:IR.
+  - unfold cstep. rewrite IR. exact I.
+  - unfold cstep. rewrite IR. left. reflexivity.
+  - unfold cstep. rewrite IR. exact I.
+  - rewrite (next_ready_resp _ _ _ _ _ _ _ _ IR). apply iter_ready_Ready in IR. destruct IR as [IT _].
+    destruct (ch_old _ _ _ _ _ H _ _ IT) as [T [items [S1 S2]]].
+    pose proof (next_answer_exact cfg t0 (map fst (s_trace R)) c (ci_sid it)) as NA. cbv zeta in NA.
+    rewrite (ch_run _ _ _ _ _ H) in NA. cbn [fst snd] in NA. rewrite <- T in NA. rewrite S1 in NA.
+    destruct (snd (step cfg (srv (c_state R)) (Next c (ci_sid it)))); simpl; auto.
+    + destruct NA as [r E]. inversion E. eauto.
+    + right. inversion NA. rewrite S2. congruence.
+    + destruct NA as [r E]. inversion E. eauto.
+Qed.
+
+(* ---------------------------------------------------------------- client streams: ending *)
+Lemma iters_step_persist : forall l l' r h it, iters_step l l' r -> nthN l h = Some it ->
+  exists it', nthN l' h = Some it' /\ ci_sid it' = ci_sid it /\ (ci_proxy it = None -> ci_proxy it' = None).
+Proof.
+  intros l l' r h it [[E _]|[[h0 [it0 [it1 [A0 [E [S [M _]]]]]]]|[new [id [_ [_ E]]]]]] A; subst l'.
+  - eauto.
+  - destruct (N.eq_dec h0 h).
+    + subst. rewrite A in A0. inversion A0; subst. exists it1. split; [eapply nthN_setN_same; eauto|auto].
+    + exists it. rewrite nthN_setN_other by auto. auto.
+  - exists it. split; [apply nthN_app_old; auto|auto].
+Qed.
+
+Lemma asks_eq : forall h op, asks h op = true -> op = CNext h \/ exists f, op = CNextFault h f.
+Proof.
+  intros h op H. destruct op; try discriminate; simpl in H; apply N.eqb_eq in H; subst; eauto.
+Qed.
+
+(* an iterator object that has dropped its proxy answers StopIteration, locally, for ever *)
+Lemma dropped_forever : forall pol cfg ops cs h it, nthN (iters cs) h = Some it -> ci_proxy it = None ->
+  forall e, In e (c_trace (crun pol cfg cs ops)) -> asks h (fst e) = true -> snd e = CStop.
+Proof.
+  induction ops as [|op ops IH]; intros cs h it A D e IN Q; [destruct IN|].
+  rewrite crun_cons in IN. cbv zeta in IN. unfold c_trace at 1 in IN. cbn [fst snd] in IN. destruct IN as [IN|IN].
+  - subst e. cbn [fst snd] in *. pose proof (iter_ready_dropped_iff _ _ _ A D) as IR.
+    destruct (asks_eq _ _ Q) as [E|[f E]]; subst op; unfold cstep; rewrite IR; reflexivity.
+  - destruct (iters_step_persist _ _ _ _ _ (cstep_iters pol cfg cs op) A) as [it' [A' [_ M]]].
+    eapply IH; eauto.
+Qed.
+
+Lemma stop_drops : forall pol cfg cs h op, drop_stop pol = true -> asks h op = true ->
+  snd (fst (cstep pol cfg cs op)) = CStop ->
+  exists it, nthN (iters (fst (fst (cstep pol cfg cs op)))) h = Some it /\ ci_proxy it = None.
+Proof.
+  intros pol cfg cs h op DS Q R. destruct (asks_eq _ _ Q) as [E|[f E]]; subst op; unfold cstep in *.
+  - destruct (iter_ready cs h) eqn:IR; try discriminate.
+    + apply iter_ready_Dropped in IR. exact IR.
+    + apply iter_ready_Ready in IR. destruct IR as [A _]. cbn [srv_step fst snd with_iter with_srv with_proxy iters srv] in *.
+      eexists. split; [eapply nthN_setN_same; eauto|]. cbn [ci_proxy].
+      destruct (snd (step cfg (srv cs) (Next c (ci_sid it)))); try discriminate. simpl. rewrite DS. reflexivity.
+  - destruct (iter_ready cs h) eqn:IR; try discriminate.
+    + apply iter_ready_Dropped in IR. exact IR.
+    + exfalso. destruct f.
+      * destruct (release cfg (with_proxy cs p (bump px)) p (bump px)). discriminate.
+      * cbn [srv_step] in R.
+        match goal with H : context [release ?a ?b ?c ?d] |- _ => destruct (release a b c d) end. discriminate.
+Qed.
+
+Lemma stop_ever_after : forall pol cfg cs h op ops, drop_stop pol = true -> asks h op = true ->
+  snd (fst (cstep pol cfg cs op)) = CStop ->
+  forall e, In e (c_trace (crun pol cfg (fst (fst (cstep pol cfg cs op))) ops)) -> asks h (fst e) = true -> snd e = CStop.
+Proof.
+  intros. destruct (stop_drops _ _ _ _ _ H H0 H1) as [it [A D]]. eapply dropped_forever; eauto.
+Qed.
+
+(* with the except-clause as it is in the source (drop on StopIteration only), a dropped proxy reference
+   means: this client stream was answered StopIteration before, or was closed *)
+Definition entry_ended (h : N) (e : cop * cresp) : bool :=
+  match e with
+  | (CNext k, CStop) | (CNextFault k _, CStop) | (CClose k, _) => k =? h
+  | _ => false
+  end.
+Definition ended (tr : ctrace) (h : N) : bool := existsb (entry_ended h) tr.
+
+Lemma dropped_means_ended : forall pol cfg t0 n ops,
+  drop_raised pol = false -> drop_error pol = false -> drop_comm pol = false ->
+  let R := crun pol cfg (cinit t0 n) ops in
+  forall h it, nthN (iters (c_state R)) h = Some it -> ci_proxy it = None -> ended (c_trace R) h = true.
+Proof.
+  intros pol cfg t0 n ops PR PE PC. induction ops as [|op ops IH] using rev_ind.
+  - simpl. intros h it A. unfold nthN in A. simpl in A. destruct (N.to_nat h); discriminate.
+  - cbv zeta in *. rewrite crun_snoc. cbv zeta. unfold c_state at 1, c_trace at 1. cbn [fst snd].
+    set (cs := c_state (crun pol cfg (cinit t0 n) ops)) in *. set (ctr := c_trace (crun pol cfg (cinit t0 n) ops)) in *.
+    intros h it A D. unfold c_trace at 1. cbn [fst snd]. unfold ended. rewrite existsb_app. apply orb_true_iff.
+    destruct (cstep_iters_full pol cfg cs op) as [[E _]|[[h0 [it0 [it1 [A0 [E [_ [_ [_ CAUSE]]]]]]]]|[new [id [_ [_ [E NN]]]]]]];
+      rewrite E in A.
+    + left. eapply IH; eauto.
+    + destruct (N.eq_dec h0 h).
+      * subst h0. rewrite (nthN_setN_same _ _ _ _ _ A0) in A. inversion A; subst it1.
+        destruct (CAUSE D) as [D0|[[OP [r0 [RR DR]]]|[[f [_ C]]|C]]].
+        -- left. eapply IH; eauto.
+        -- right. simpl. rewrite orb_false_r. subst op. rewrite RR.
+           destruct r0; simpl in DR; try discriminate; try (rewrite PR in DR; discriminate); try (rewrite PE in DR; discriminate).
+           simpl. apply N.eqb_refl.
+        -- rewrite PC in C. discriminate.
+        -- right. simpl. rewrite orb_false_r. rewrite C. simpl. apply N.eqb_refl.
+      * rewrite nthN_setN_other in A by auto. left. eapply IH; eauto.
+    + apply nthN_app_cases in A. destruct A as [A|[_ [IT _]]].
+      * left. eapply IH; eauto.
+      * subst it. contradiction.
+Qed.
+
+(* once the daemon has forgotten the stream, its client stream never yields an item or re-raises again *)
+Definition no_item (r : cresp) : Prop := match r with CItem _ | CRaised _ => False | _ => True end.
+
+Lemma dead_answer : forall pol cfg cs h it op, nthN (iters cs) h = Some it ->
+  lookup (ci_sid it) (tbl (srv cs)) = None -> asks h op = true -> no_item (snd (fst (cstep pol cfg cs op))).
+Proof.
+  intros pol cfg cs h it op A L Q. destruct (asks_eq _ _ Q) as [E|[f E]]; subst op; unfold cstep.
+  - destruct (iter_ready cs h) eqn:IR; try exact I.
+    apply iter_ready_Ready in IR. destruct IR as [B _]. rewrite A in B. inversion B; subst it0.
+    cbn [srv_step fst snd with_proxy srv]. rewrite step_next_resp, L. exact I.
+  - destruct (iter_ready cs h) eqn:IR; try exact I. destruct f.
+    + destruct (release cfg (with_proxy cs p (bump px)) p (bump px)). exact I.
+    + cbn [srv_step]. match goal with |- context [release ?a ?b ?c ?d] => destruct (release a b c d) end. exact I.
+Qed.
+
+Lemma sid_lt : forall cs h it, cinv cs -> nthN (iters cs) h = Some it -> ci_sid it < next_id (srv cs).
+Proof.
+  intros cs h it [_ LT _] A. rewrite Forall_forall in LT. apply LT. apply in_map. eapply nth_error_In. exact A.
+Qed.
+
+Lemma dead_forever : forall pol cfg ops cs h it, cinv cs -> nthN (iters cs) h = Some it ->
+  lookup (ci_sid it) (tbl (srv cs)) = None ->
+  forall e, In e (c_trace (crun pol cfg cs ops)) -> asks h (fst e) = true -> no_item (snd e).
+Proof.
+  induction ops as [|op ops IH]; intros cs h it CI A L e IN Q; [destruct IN|].
+  rewrite crun_cons in IN. cbv zeta in IN. unfold c_trace at 1 in IN. cbn [fst snd] in IN. destruct IN as [IN|IN].
+  - subst e. cbn [fst snd] in *. eapply dead_answer; eauto.
+  - destruct (iters_step_persist _ _ _ _ _ (cstep_iters pol cfg cs op) A) as [it' [A' [S _]]].
+    refine (IH _ h it' _ A' _ e IN Q).
+    + apply cstep_cinv; auto.
+    + rewrite S. rewrite cstep_srv. apply forgotten_stays; auto.
+      * apply ci_srv; auto.
+      * eapply sid_lt; eauto.
+Qed.
+
+Lemma end_forgets : forall pol cfg cs h it p px c, cinv cs -> iter_ready cs h = Ready it p px c ->
+  match snd (fst (cstep pol cfg cs (CNext h))) with
+  | CStop | CRaised _ | CError => lookup (ci_sid it) (tbl (srv (fst (fst (cstep pol cfg cs (CNext h)))))) = None
+  | _ => True
+  end.
+Proof.
+  intros pol cfg cs h it p px c CI IR. unfold cstep. rewrite IR.
+  cbn [srv_step fst snd with_iter with_srv with_proxy srv].
+  pose proof (ends_removed cfg (srv cs) c (ci_sid it) (ci_srv _ CI)) as ER.
+  destruct (snd (step cfg (srv cs) (Next c (ci_sid it)))); simpl; auto.
+Qed.
+
+(* a re-raised error (or a "terminated" answer) ends the client stream: never an item, never a second raise *)
+Lemma failed_then_ended : forall pol cfg cs h ops, cinv cs ->
+  match snd (fst (cstep pol cfg cs (CNext h))) with CRaised _ | CError => True | _ => False end ->
+  forall e, In e (c_trace (crun pol cfg (fst (fst (cstep pol cfg cs (CNext h)))) ops)) ->
+            asks h (fst e) = true -> no_item (snd e).
+Proof.
+  intros pol cfg cs h ops CI R e IN Q.
+  destruct (iter_ready cs h) eqn:IR; try (unfold cstep in R; rewrite IR in R; contradiction).
+  pose proof (end_forgets pol cfg cs h it p px c CI IR) as EF.
+  pose proof (iter_ready_Ready _ _ _ _ _ _ IR) as [A _].
+  destruct (iters_step_persist _ _ _ _ _ (cstep_iters pol cfg cs (CNext h)) A) as [it' [A' [S _]]].
+  refine (dead_forever pol cfg ops _ h it' _ A' _ e IN Q).
+  - apply cstep_cinv; auto.
+  - rewrite S. destruct (snd (fst (cstep pol cfg cs (CNext h)))); try contradiction; auto.
+Qed.
+
+(* ---------------------------------------------------------------- communication error, reconnect, resume *)
+Definition is_time (op : cop) : bool := match op with CTick _ | CHousekeep => true | _ => false end.
+Definition time_event (op : cop) : list event :=
+  match op with CTick dt => [Tick dt] | CHousekeep => [Housekeep] | _ => [] end.
+
+Lemma time_ops : forall pol cfg mid cs, forallb is_time mid = true ->
+  c_state (crun pol cfg cs mid) = with_srv cs (fst (run cfg (srv cs) (flat_map time_event mid))).
+Proof.
+  induction mid as [|op mid IH]; intros cs H.
+  - simpl. destruct cs; reflexivity.
+  - simpl in H. apply andb_true_iff in H. destruct H as [H0 H].
+    rewrite crun_cons. cbv zeta. unfold c_state at 1. cbn [fst].
+    destruct op; try discriminate; unfold cstep; cbn [srv_step fst snd]; rewrite IH by auto;
+      cbn [with_srv srv flat_map time_event app]; rewrite run_cons; reflexivity.
+Qed.
+
+Lemma client_resume : forall pol cfg cs h it p px c s v r mid,
+  cinv cs -> drop_comm pol = false -> 0 < linger cfg ->
+  iter_ready cs h = Ready it p px c ->
+  lookup (ci_sid it) (tbl (srv cs)) = Some s -> owner s = Some c -> rest s = Yield v :: r ->
+  forallb is_time mid = true ->
+  within (linger_strict cfg) (linger cfg) (ticks (flat_map time_event mid)) = true ->
+  (lifetime cfg = 0 \/
+   within (lifetime_strict cfg) (lifetime cfg) (now (srv cs) + ticks (flat_map time_event mid) - created s) = true) ->
+  let S1 := cstep pol cfg cs (CNextFault h ReqLost) in
+  let cs2 := c_state (crun pol cfg (fst (fst S1)) mid) in
+  let cs3 := fst (fst (cstep pol cfg cs2 (CReconnect p))) in
+  snd (fst S1) = CCommErr None /\
+  snd (fst (cstep pol cfg cs2 (CNext h))) = CClosedLocal /\
+  snd (fst (cstep pol cfg cs3 (CNext h))) = CItem v.
+Proof.
+  intros pol cfg cs h it p px c s v r mid CI PC LG IR L O RS TM W1 W2.
+  pose proof (iter_ready_Ready _ _ _ _ _ _ IR) as [A [B [PX PCN]]].
+  set (st1 := fst (step cfg (srv cs) (Disconnect c))).
+  set (it1 := {| ci_proxy := ci_proxy it; ci_sid := ci_sid it; ci_seq := ci_seq it + 1 |}).
+  set (px1 := {| p_conn := None; p_seq := p_seq px + 1 |}).
+  set (cs1 := with_iter (with_proxy (with_srv (with_proxy cs p (bump px)) st1) p px1) h it1).
+  assert (E1 : cstep pol cfg cs (CNextFault h ReqLost) =
+               (cs1, CCommErr None, [(Disconnect c, snd (step cfg (srv cs) (Disconnect c)))])).
+  { unfold cstep. rewrite IR. unfold release. cbn [bump p_conn]. rewrite PCN, PC. reflexivity. }
+  cbv zeta. rewrite E1. cbn [fst snd]. split; [reflexivity|].
+  rewrite time_ops by auto.
+  set (st2 := fst (run cfg (srv cs1) (flat_map time_event mid))).
+  set (cs2 := with_srv cs1 st2).
+  assert (NI : nthN (iters cs2) h = Some it1) by (unfold cs2, cs1; cbn [with_srv with_iter iters]; eapply nthN_setN_same; eauto).
+  assert (NP : nthN (proxies cs2) p = Some px1).
+  { unfold cs2, cs1. cbn [with_srv with_iter with_proxy proxies]. eapply nthN_setN_same. eapply nthN_setN_same. eauto. }
+  split.
+  - unfold cstep, iter_ready. rewrite NI. cbn [ci_proxy it1]. rewrite B, NP. reflexivity.
+  - set (px3 := {| p_conn := Some (next_conn cs2); p_seq := p_seq px1 |}).
+    set (cs3 := with_proxy (fst (fresh_conn cs2)) p px3).
+    assert (E3 : fst (fst (cstep pol cfg cs2 (CReconnect p))) = cs3).
+    { unfold cstep. rewrite NP. unfold release, ensure_conn. cbn [p_conn px1]. reflexivity. }
+    rewrite E3.
+    assert (IR3 : iter_ready cs3 h = Ready it1 p px3 (next_conn cs2)).
+    { unfold iter_ready. unfold cs3 at 1. cbn [with_proxy fresh_conn fst iters]. rewrite NI. cbn [ci_proxy it1]. rewrite B.
+      unfold cs3. cbn [with_proxy fresh_conn fst proxies]. erewrite nthN_setN_same by exact NP. reflexivity. }
+    rewrite (next_ready_resp _ _ _ _ _ _ _ _ IR3).
+    pose proof (linger_resume cfg (srv cs) (ci_sid it) s c (next_conn cs2) v r (flat_map time_event mid)
+                  (ci_srv _ CI) LG L O RS) as LR.
+    assert (U : forallb (fun ev => negb (touches (ci_sid it) ev)) (flat_map time_event mid) = true).
+    { clear - TM. induction mid as [|op mid IH]; [reflexivity|]. simpl in TM. apply andb_true_iff in TM.
+      destruct TM as [T0 TM]. destruct op; try discriminate; simpl; apply IH; auto. }
+    specialize (LR U W1 W2). cbv zeta in LR. rewrite run_cons in LR. cbn [fst] in LR. destruct LR as [LR _].
+    assert (SRV3 : srv cs3 = fst (run cfg st1 (flat_map time_event mid))) by reflexivity.
+    rewrite SRV3. change (ci_sid it1) with (ci_sid it). unfold st1. rewrite LR. reflexivity.
+Qed.
+
+(* ---------------------------------------------------------------- packaged for client histories from the start *)
+Definition cafter (pol : cpolicy) (cfg : config) (t0 n : N) (ops : list cop) := crun pol cfg (cinit t0 n) ops.
+
+Lemma cafter_cinv : forall pol cfg t0 n ops, cinv (c_state (cafter pol cfg t0 n ops)).
+Proof. intros. apply crun_cinv. apply cinv_init. Qed.
+
+Lemma client_received_exact : forall pol cfg t0 n ops h items, no_raw ops = true ->
+  forallb (fun op => negb (reply_lost_on h op)) ops = true ->
+  let R := cafter pol cfg t0 n ops in
+  nth_error (copened (c_trace R)) (N.to_nat h) = Some items ->
+  received (c_trace R) h = taken (c_trace R) h /\ exists suffix, items = yields (received (c_trace R) h) ++ suffix.
+Proof.
+  intros pol cfg t0 n ops h items NR NL R A.
+  assert (E : received (c_trace R) h = taken (c_trace R) h).
+  { apply received_taken. apply no_reply_lost. auto. }
+  split; auto. rewrite E. eapply client_items_exact; eauto.
+Qed.
+
+Lemma client_stop_exact : forall pol cfg t0 n ops h,
+  drop_raised pol = false -> drop_error pol = false -> drop_comm pol = false -> no_raw ops = true ->
+  let R := cafter pol cfg t0 n ops in
+  snd (fst (cstep pol cfg (c_state R) (CNext h))) = CStop ->
+  ended (c_trace R) h = true \/ nth_error (copened (c_trace R)) (N.to_nat h) = Some (yields (taken (c_trace R) h)).
+Proof.
+  intros pol cfg t0 n ops h PR PE PC NR R S.
+  pose proof (client_next_answer pol cfg t0 n ops h NR) as NA. cbv zeta in NA. fold (cafter pol cfg t0 n ops) in NA.
+  fold R in NA. rewrite S in NA. destruct NA as [D|X]; auto.
+  left. apply iter_ready_Dropped in D. destruct D as [it [A D]].
+  eapply (dropped_means_ended pol cfg t0 n ops PR PE PC); eauto.
+Qed.
+
+Lemma client_failed_then_ended : forall pol cfg t0 n ops h ops',
+  let cs := c_state (cafter pol cfg t0 n ops) in
+  match snd (fst (cstep pol cfg cs (CNext h))) with CRaised _ | CError => True | _ => False end ->
+  forall e, In e (c_trace (crun pol cfg (fst (fst (cstep pol cfg cs (CNext h)))) ops')) ->
+            asks h (fst e) = true -> no_item (snd e).
+Proof. intros pol cfg t0 n ops h ops' cs. apply failed_then_ended. apply cafter_cinv. Qed.
+
+Lemma client_resume_reach : forall pol cfg t0 n ops h it p px c s v r mid,
+  drop_comm pol = false -> 0 < linger cfg ->
+  let cs := c_state (cafter pol cfg t0 n ops) in
+  iter_ready cs h = Ready it p px c ->
+  lookup (ci_sid it) (tbl (srv cs)) = Some s -> owner s = Some c -> rest s = Yield v :: r ->
+  forallb is_time mid = true ->
+  within (linger_strict cfg) (linger cfg) (ticks (flat_map time_event mid)) = true ->
+  (lifetime cfg = 0 \/
+   within (lifetime_strict cfg) (lifetime cfg) (now (srv cs) + ticks (flat_map time_event mid) - created s) = true) ->
+  let S1 := cstep pol cfg cs (CNextFault h ReqLost) in
+  let cs2 := c_state (crun pol cfg (fst (fst S1)) mid) in
+  let cs3 := fst (fst (cstep pol cfg cs2 (CReconnect p))) in
+  snd (fst S1) = CCommErr None /\
+  snd (fst (cstep pol cfg cs2 (CNext h))) = CClosedLocal /\
+  snd (fst (cstep pol cfg cs3 (CNext h))) = CItem v.
+Proof. intros pol cfg t0 n ops h it p px c s v r mid PC LG cs. apply client_resume; auto. apply cafter_cinv. Qed.
